@@ -102,6 +102,38 @@ def score_lines(rows, refs: Dict, qrys: Dict, extra: Dict, parsed_main, tag) -> 
     return out
 
 
+def fragment_lines(rows, qp: str, tag) -> List[Dict]:
+    """Trace_Fragments lines: getUnalignedFragments of every first-pass row (rows of the 'separate' main file)"""
+    from src.parsers.cmap_reader import CmapReader
+    from src.alignment.alignment_position import AlignedPair
+    with open(qp) as f:
+        queries = [q.trim() for q in CmapReader().readQueries(f)]
+    byid = {int(q.moleculeId): q for q in queries}
+
+    def d10(v):
+        return int(round(float(v) * 10))
+
+    out = []
+    for row in rows:
+        q = byid.get(int(row.queryId))
+        if q is None:
+            continue
+        pairs = sorted(p for s_ in row.segments for p in s_.positions if isinstance(p, AlignedPair))
+        if not pairs:
+            continue
+        line = {"xs": [d10(v) for v in q.positions], "qlen": d10(q.length),
+                "row": {"qs": d10(row.queryStartPosition), "qe": d10(row.queryEndPosition), "rev": bool(row.reverseStrand),
+                        "firstQ": int(pairs[0].query.siteId), "lastQ": int(pairs[-1].query.siteId)},
+                "obs": [], "status": "ok", "tag": dict(tag, query=int(row.queryId))}
+        try:
+            for fr in row.getUnalignedFragments(queries):
+                line["obs"].append({"x": [d10(v) for v in fr.positions], "shift": int(fr.shift), "len": d10(fr.length)})
+        except Exception as e:
+            line["status"] = "exc:" + type(e).__name__
+        out.append(line)
+    return out
+
+
 def explore_input(seed: int, idx: int, modes: List[str], n_qry: int, with_readback: bool, record: bool,
                   kinds=None, keep_rows: bool = False) -> Dict:
     """one generated input, run in every mode in process; returns Trace_Xmap lines and a per-mode summary"""
@@ -146,6 +178,9 @@ def explore_input(seed: int, idx: int, modes: List[str], n_qry: int, with_readba
                         line["kind"] = "readback"
                         line["rb"] = rb[kth - 1]
                     lines.append(line)
+            if keep_rows and res["rows"] is not None and mode == "separate":
+                summary.setdefault("fragment_lines", []).extend(
+                    fragment_lines(res["rows"].rows, qp, {"input": idx, "mode": mode}))
             if keep_rows and res["rows"] is not None and res["files"].get("main"):
                 summary.setdefault("score_lines", []).extend(
                     score_lines(res["rows"].rows, refs, qrys, extra, res["files"]["main"],
